@@ -172,7 +172,10 @@ def gen_content(st, case):
             parts.append(rp.choice(["\u00e9", "\u4e2d", "\U0001f600"]))
         line = rp.choice(["", " ", "-"]) .join(parts)
         lines.append("%s ~%d~" % (line, k))           # unique inert marker: exact output -> input attribution
-    return {"lines": lines, "trailing_newline": rp.random() < 0.85}
+    redact = []
+    if rp.random() < 0.5:
+        redact = [rp.choice(["x", "9", "y", "ab", "0", "~1", "(", "error"])]     # a plain exclusion pattern for the cleaner path
+    return {"lines": lines, "trailing_newline": rp.random() < 0.85, "redact": redact}
 
 
 # ------------------------------------------------------------------------------------------------
@@ -528,10 +531,15 @@ def run_content(case, world, viols, stats):
         stats["probes"]["path_archive_post_filter"] = stats["probes"].get("path_archive_post_filter", 0) + 1
         # ---------------- P3 allow-list inside the cleaner
         if exp:
-            cl = Cleaner(None, {}, fqdn="host.example.com")
+            redact = list(content.get("redact") or [])
+            cl = Cleaner(None, {"patterns": redact} if redact else {}, fqdn="host.example.com")
             out = cl.clean_content(list(orig), no_obfuscate=["password", "keyword", "hostname", "ip", "ipv6", "mac"],
                                    allowlist=dict(real_budgets))
-            check_laws("cleaner-allowlist", orig, out, real_budgets, viols, respects_budget=True)
+            # redaction comes first: the filter laws speak about the lines that survive it
+            surv = [l for l in orig if not (l and any(p in l for p in redact))]
+            check_laws("cleaner-allowlist" + (":with-redaction" if redact else ""), surv, out, real_budgets, viols, respects_budget=True)
+            if redact:
+                stats["probes"]["cleaner_allowlist_with_redaction"] = stats["probes"].get("cleaner_allowlist_with_redaction", 0) + 1
             if dict(real_budgets) != dict(fresh):
                 viols.append(V("C07.content", "cleaner-allowlist:budgets-written-back", "clean_content modified the caller's allow-list"))
             stats["probes"]["path_cleaner_allowlist"] = stats["probes"].get("path_cleaner_allowlist", 0) + 1
